@@ -29,6 +29,8 @@ def run(ctx: Ctx) -> None:
                                             'random walks over 14 instants x 3 records x 4 jitter values'})
     ctx.log('model behaviours replayed into the real responder: %d, drift: %d' % (len(mscs), len(d)))
     strict_sighting_pass(ctx, scenarios, traces)
+    from props.resp_run import additional_pass
+    additional_pass(ctx, scenarios, traces)
 
 
 def replay(ctx: Ctx, path: str) -> None:
@@ -42,3 +44,5 @@ def replay(ctx: Ctx, path: str) -> None:
     from props.resp_run import strict_sighting_pass
     scenarios, traces = run_family(ctx, 'C12', 'c12', 0, 0, [sc])
     strict_sighting_pass(ctx, scenarios, traces)
+    from props.resp_run import additional_pass
+    additional_pass(ctx, scenarios, traces)
